@@ -1,4 +1,5 @@
 import Pyrtma.Proofs.ManagerInv
+import Pyrtma.Proofs.ManagerSimDrv
 /-!
 # C01 — pub/sub routing is exact: right recipients, exactly once, unmodified
 
@@ -8,6 +9,16 @@ nested inside, removals those cause in turn …), for **every** state, every fra
 the subscriber sets (`cfg.order` is an arbitrary function), every set of failing sockets and every writable set.
 
 `dataSends (· == .data k) out` is the list of `(recipient, frame)` for every copy of input frame `k` found in `out`.
+
+For every history (the refinement link, `Proofs/ManagerSim*.lean`): `spec_data_clause_passes_on_model` — run the model on
+any well-formed history and give the history-based Spec (`Spec.runSpec`, the function the driver evaluates on what the
+real `MessageManager` did) the events the model itself wrote: the verdict contains **no C01 entry**.  The C01 clauses of
+the Spec (`Spec.checkData`: while a data frame is handled no other data frame is written; every copy carries the
+published type, source, destination ids and length; every live subscriber — to the type or to everything — that is ready
+(writable, or a logger), passes the destination filter and whose connection works gets exactly one copy; nobody else
+gets one) are stated over the Spec's own abstract table; the proof carries a simulation relation between that table and
+the model's tables (`Sim`, incl. "the subscription index lists a module under exactly the types of its `subs`") through
+every round and uses `forward_copies` (the statement of `routing_exact` for the top-level forward).
 -/
 namespace Pyrtma.C01
 open Pyrtma.Mgr
@@ -130,6 +141,21 @@ theorem exactly_once_inv (cfg : Cfg) (hord : OrderOK cfg) (fuel : Nat) (s : Stat
       if u ∈ recipients cfg s f.mtype ∧ elig f s u = true then 1 else 0 :=
   exactly_once cfg fuel s f k hb hc hr (snapshot_nodup hinv f.mtype ht hord) hfresh u
 
+/-! ### The Spec's C01 clauses on every run of the model -/
+
+/-- **The Spec's routing clauses hold on every run of the model.**  For every configuration meeting the side conditions
+(`CfgOK`, automatic fuel, CLIENT_CLOSED is not the ALL_MESSAGE_TYPES sentinel;
+`OrdPerm`: the iteration order of a Python `set` visits every element once — insertion order
+and its reverse, which the driver uses, are instances) and every history whose frames are read from connections (never
+from the manager's own table entry, uid 0 — true of every generated history), the verdict `Spec.runSpec` computes from
+the history and the model's own events has no C01 entry: whatever sequence of accepts, connects, (un)subscriptions,
+pauses, disconnects, socket failures, writable sets and clock values precedes it, every published frame reaches exactly
+the eligible subscribers the Spec's own bookkeeping expects, once, unmodified. -/
+theorem spec_data_clause_passes_on_model (cfg : Cfg) (ok : CfgOK cfg) (hfuel : cfg.fuel = 0) (hperm : OrdPerm cfg)
+    (hmt : cfg.mtClosed ≠ cfg.allTypes) (rs : List Round) (hwf : RoundsWF rs) :
+    (Spec.runSpec cfg rs (Pyrtma.Drv.Manager.modelRun cfg rs).1 none).errs.filter (·.1 == "C01") = [] :=
+  spec_passes_on_model ok hfuel hperm hmt rs hwf "C01" (by simp [proven]) (fun h => absurd h (by decide))
+
 /-! ### Non-vacuity: a concrete three-module state, one subscribe-all logger, one addressed message -/
 
 def exCfg : Cfg := {}
@@ -144,5 +170,27 @@ def exFrame : Frame := { mtype := 5000, src := 10, dest := 11, destHost := 0, nb
 example : dataSends (isCopy 7) (forward exCfg 9 exState exFrame).out = [(2, exFrame), (3, exFrame)] := by decide
 example : OrderOK exCfg := fun l h => ⟨h, fun _ hx => hx⟩
 example : (recipients exCfg exState 5000).Nodup ∧ exState.crashed = none ∧ outOfRange exCfg exFrame = false := by decide
+
+/-- a history: two connections connect, both subscribe to type 5000, the first publishes frame 7 — the second (and only
+    the second: the sender is a subscriber too, but only connection 2 is writable in that round) gets it -/
+def exHist : List Round :=
+  [{ accept := true }, { accept := true },
+   { reads := [{ uid := 1, h := { k := 1, mtype := 13, src := 10 } }], writable := [1, 2] },
+   { reads := [{ uid := 2, h := { k := 2, mtype := 13, src := 11 } }], writable := [1, 2] },
+   { reads := [{ uid := 1, h := { k := 3, mtype := 15, nbytes := 4 }, avail := 4, pay := [136, 19, 0, 0] },
+               { uid := 2, h := { k := 4, mtype := 15, nbytes := 4 }, avail := 4, pay := [136, 19, 0, 0] }],
+     writable := [1, 2] },
+   { reads := [{ uid := 1, h := { k := 7, mtype := 5000, src := 10, nbytes := 4 }, avail := 4, pay := [1, 2, 3, 4] }],
+     writable := [2] }]
+
+example : RoundsWF exHist := by
+  intro r hr rd hrd
+  simp only [exHist, List.mem_cons, List.not_mem_nil, or_false] at hr
+  rcases hr with rfl | rfl | rfl | rfl | rfl | rfl <;> simp at hrd
+  all_goals (first | (subst hrd; decide) | (rcases hrd with rfl | rfl <;> decide))
+
+example : (Spec.dmine 7 (modelObs {} exHist).flatten).map (·.1) = [2] := by decide +kernel
+
+example : (Spec.runSpec {} exHist (Pyrtma.Drv.Manager.modelRun {} exHist).1 none).errs = [] := by decide +kernel
 
 end Pyrtma.C01
